@@ -13,6 +13,10 @@ type T2Storage = Vector3<f64>;
 pub use points_to_curve::points_to_curve;
 pub use rc_params2::RcParams2;
 
+// verification hook (add-only): the 2D Jacobian row lives in a private module
+#[cfg(engeom_verif)]
+pub use jacobian::point_surface_jacobian;
+
 /// Produces a 2D transformation from 3 parameters.
 pub fn iso2_from_param(p: &T2Storage) -> Iso2 {
     Iso2::translation(p.x, p.y) * Iso2::rotation(p.z)
